@@ -35,20 +35,22 @@ type c11Case struct {
 	Cfg c11Cfg `json:"cfg"`
 	Ops []int  `json:"ops"`
 	Ks  []int  `json:"ks"` // map-iteration start per op
-	// op 13 (failure-offset sweep): the sink of that WriteTo starts failing at byte SinkAt; style 0 accepts the
+	// op 15 (failure-offset sweep): the sink of that WriteTo starts failing at byte SinkAt; style 0 accepts the
 	// prefix of the write that crosses the offset (short write), style 1 rejects that whole write
 	SinkAt    int `json:"sink_at,omitempty"`
 	SinkStyle int `json:"sink_style,omitempty"`
 }
 
-// c11EnumOps is the number of operations the sequence enumeration ranges over (op 13 belongs to the sweep).
-const c11EnumOps = 13
+// c11EnumOps is the number of operations the sequence enumeration ranges over (op 15 belongs to the sweep).
+const c11EnumOps = 15
+
+const c11SweepOp = 15
 
 var (
 	c11Shapes = []string{"single", "alternative", "body+attachment", "body+embed", "attachment-only", "two-preformatted-headers", "smime-single", "smime+attachment", "two-attachments-only", "body-writer+file-writer (switchable source fault)", "caller-fixed boundary: alternative+attachment (nested multiparts)", "caller-fixed boundary: S/MIME alternative+attachment"}
 	c11Srcs   = []string{"reader", "readseeker", "file", "fs.FS", "text-template", "reader(*bytes.Reader, partially consumed)", "reader(*strings.Reader)", "readseeker(partially consumed)", "reader(*os.File)"}
 	c11Ops    = []string{"WriteTo", "Write", "NewReader", "UpdateReader", "WriteToFile", "WriteToTempFile", "Send", "WriteTo(sink fails at 0)", "WriteTo(sink fails mid-way)",
-		"WriteTo(while the content source fails)", "NewReader(while the content source fails)", "UpdateReader(while the content source fails)", "Send(while the content source fails)", "WriteTo(sink fails at byte K)"}
+		"WriteTo(while the content source fails)", "NewReader(while the content source fails)", "UpdateReader(while the content source fails)", "Send(while the content source fails)", "NewReader(only 64 bytes read)", "NewReader(copied into a failing sink)", "WriteTo(sink fails at byte K)"}
 )
 
 func c11HasFile(shape int) bool {
@@ -368,8 +370,18 @@ func c11Exec(r *vf.Run, k c11Case, dir string) []finding {
 					} else if operr == nil {
 						operr = fmt.Errorf("server committed %d messages", len(sess.Commits))
 					}
-				case 13:
+				case c11SweepOp:
 					_, _ = m.WriteTo(&faultSink{at: k.SinkAt, style: k.SinkStyle})
+					ok = false
+				case 13:
+					// the caller peeks at the beginning and abandons the read
+					rd = m.NewReader()
+					_, _ = io.ReadFull(rd, make([]byte, 64))
+					ok = false
+				case 14:
+					// the caller copies the Reader into a destination that fails mid-way
+					rd = m.NewReader()
+					_, _ = io.Copy(&faultSink{at: 100}, rd)
 					ok = false
 				case 7, 8:
 					at := 0
@@ -430,7 +442,7 @@ func init() {
 	vf.Register(&vf.Check{
 		ID: "C11", Title: "rendering is repeatable and all output paths agree",
 		Run: func(r *vf.Run) {
-			r.SetRule("message shapes {single, alternative, body+attachment, body+embed, attachment-only, two attachments only, three preformatted headers, S/MIME single, S/MIME+attachment, nested multiparts with a caller-fixed boundary (plain and S/MIME)} × file source {io.Reader (buffer, *bytes.Reader partially consumed, *strings.Reader, *os.File), read-seeker (fresh and partially consumed), file, fs.FS, text template} × file encoding {base64, 8bit, QP} × ALL sequences of length 2..L over the 9 render operations {WriteTo, Write, NewReader, UpdateReader, WriteToFile, WriteToTempFile, Send (server commit log), WriteTo into a sink failing at 0, … failing mid-way, and WriteTo / NewReader / UpdateReader / Send while the content source (body or file writer function) fails} × map-iteration start 0..7 per operation (<=1 operation deviating from start 0; thorough <=2) through the runtime seam; Date, Message-ID and boundaries are generated by go-mail on first use; plus a failure-offset sweep per configuration: [WriteTo, WriteTo into a sink that starts failing at byte K, WriteTo, WriteTo] for EVERY K of the output × {short write, rejected write}; every successful output must equal the first; distinct by (configuration, operation sequence, map starts)")
+			r.SetRule("message shapes {single, alternative, body+attachment, body+embed, attachment-only, two attachments only, three preformatted headers, S/MIME single, S/MIME+attachment, nested multiparts with a caller-fixed boundary (plain and S/MIME)} × file source {io.Reader (buffer, *bytes.Reader partially consumed, *strings.Reader, *os.File), read-seeker (fresh and partially consumed), file, fs.FS, text template} × file encoding {base64, 8bit, QP} × ALL sequences of length 2..L over the 9 render operations {WriteTo, Write, NewReader, UpdateReader, WriteToFile, WriteToTempFile, Send (server commit log), WriteTo into a sink failing at 0, … failing mid-way, WriteTo / NewReader / UpdateReader / Send while the content source (body or file writer function) fails, a Reader of which only 64 bytes are read, a Reader copied into a failing destination} × map-iteration start 0..7 per operation (<=1 operation deviating from start 0; thorough <=2) through the runtime seam; Date, Message-ID and boundaries are generated by go-mail on first use; plus a failure-offset sweep per configuration: [WriteTo, WriteTo into a sink that starts failing at byte K, WriteTo, WriteTo] for EVERY K of the output × {short write, rejected write}; every successful output must equal the first; distinct by (configuration, operation sequence, map starts)")
 			r.Assume("map iteration order is owned through a runtime build-overlay seam (start offset 0..7 for maps of <= 8 entries)", "for S/MIME the per-render outer boundary and signature value are excluded: the signed entity and the remaining top-level fields are compared",
 				"Send output compares modulo the transport's final CRLF", "8bit file content with bare LF/CR compares modulo line-break canonicalisation across the Send path (the dot-writer canonicalises it; such content is illegal on the wire)")
 			if !mapseam.Enabled {
@@ -493,7 +505,7 @@ func init() {
 						}
 						hasSrcOp := false
 						for _, o := range ops {
-							if o >= 9 {
+							if o >= 9 && o <= 12 {
 								hasSrcOp = true
 							}
 						}
@@ -504,7 +516,7 @@ func init() {
 							// quick: length-3 sequences over the five representative operations only
 							rep := true
 							for _, o := range ops {
-								if o != 0 && o != 2 && o != 3 && o != 6 && o != 8 && o != 11 {
+								if o != 0 && o != 2 && o != 3 && o != 6 && o != 8 && o != 11 && o != 13 && o != 14 {
 									rep = false
 								}
 							}
@@ -603,7 +615,7 @@ func init() {
 							r.Incomplete("time budget reached during the C11 failure-offset sweep")
 							return
 						}
-						k := c11Case{Cfg: cfg, Ops: []int{0, 13, 0, 0}, Ks: []int{0, 0, 0, 0}, SinkAt: at, SinkStyle: style}
+						k := c11Case{Cfg: cfg, Ops: []int{0, c11SweepOp, 0, 0}, Ks: []int{0, 0, 0, 0}, SinkAt: at, SinkStyle: style}
 						fs := c11Exec(r, k, dir)
 						r.Eval(vf.Hash(fmt.Sprintf("%+v", k)), true)
 						r.TraceValidated()
@@ -637,7 +649,7 @@ func init() {
 			r.Eval(1, true)
 			fmt.Printf("  cfg=%+v ops=%v map-starts=%v\n", k.Cfg, opNames(k.Ops), k.Ks)
 			for _, f := range c11Exec(r, k, dir) {
-				if len(k.Ops) > 1 && k.Ops[1] == 13 {
+				if len(k.Ops) > 1 && k.Ops[1] == c11SweepOp {
 					f.key += "/after-failed-render"
 				}
 				fmt.Printf("  -> %s: %s\n", f.key, f.what)
